@@ -36,6 +36,9 @@ pub struct OutRec {
 pub enum KSpec {
 	Plain(u64),
 	HeightLocked(u64, u64),
+	/// NoRecentDuplicate kernel (fee, relative height, excess slot: kernels built with the same
+	/// slot share the same excess commitment)
+	Nrd(u64, u64, usize),
 }
 
 #[derive(Clone, Debug)]
@@ -193,14 +196,19 @@ impl Kit {
 			};
 			new_outs.push((*v, key));
 		}
-		let features = match spec.kernel {
-			KSpec::Plain(fee) => KernelFeatures::Plain { fee: (fee as u32).into() },
-			KSpec::HeightLocked(fee, lock) => KernelFeatures::HeightLocked {
-				fee: (fee as u32).into(),
-				lock_height: lock,
-			},
+		let tx = match spec.kernel {
+			KSpec::Plain(fee) => make_tx(&self.kc, &ins, &new_outs, KernelFeatures::Plain { fee: (fee as u32).into() })?,
+			KSpec::HeightLocked(fee, lock) => make_tx(
+				&self.kc,
+				&ins,
+				&new_outs,
+				KernelFeatures::HeightLocked {
+					fee: (fee as u32).into(),
+					lock_height: lock,
+				},
+			)?,
+			KSpec::Nrd(fee, rel, slot) => make_nrd_tx(&self.kc, &ins, &new_outs, fee, rel, slot)?,
 		};
-		let tx = make_tx(&self.kc, &ins, &new_outs, features)?;
 		for (v, key) in new_outs {
 			let commit = self
 				.kc
@@ -443,6 +451,58 @@ pub fn make_tx(
 		parts.push(build::output(*v, k.clone()));
 	}
 	build::transaction(features, &parts, kc, &ProofBuilder::new(kc)).map_err(|e| format!("{:?}", e))
+}
+
+/// the fixed excess blinding factor of an NRD slot
+pub fn nrd_excess(kc: &ExtKeychain, slot: usize) -> grin_keychain::BlindingFactor {
+	let mut b = [0u8; 32];
+	b[31] = 7 + slot as u8;
+	b[0] = 0x11;
+	let _ = kc;
+	grin_keychain::BlindingFactor::from_slice(&b)
+}
+
+/// excess commitment (first 8 bytes hex, as printed in kernel descriptions) of an NRD slot
+pub fn nrd_excess_tag(kc: &ExtKeychain, slot: usize) -> String {
+	let ex = nrd_excess(kc, slot);
+	let skey = ex.secret_key(kc.secp()).unwrap();
+	let c = kc.secp().commit(0, skey).unwrap();
+	crate::hex(&c.0[..8])
+}
+
+pub fn make_nrd_tx(
+	kc: &ExtKeychain,
+	ins: &[(u64, Identifier, bool)],
+	outs: &[(u64, Identifier)],
+	fee: u64,
+	rel: u64,
+	slot: usize,
+) -> Result<Transaction, String> {
+	use grin_core::core::NRDRelativeHeight;
+	use grin_core::libtx::aggsig;
+	let mut kernel = TxKernel::with_features(KernelFeatures::NoRecentDuplicate {
+		fee: (fee as u32).into(),
+		relative_height: NRDRelativeHeight::new(rel).map_err(|e| format!("{:?}", e))?,
+	});
+	let msg = kernel.msg_to_sign().map_err(|e| format!("{:?}", e))?;
+	let excess = nrd_excess(kc, slot);
+	let skey = excess.secret_key(kc.secp()).map_err(|e| format!("{:?}", e))?;
+	kernel.excess = kc.secp().commit(0, skey).map_err(|e| format!("{:?}", e))?;
+	let pubkey = kernel.excess.to_pubkey(kc.secp()).map_err(|e| format!("{:?}", e))?;
+	kernel.excess_sig =
+		aggsig::sign_with_blinding(kc.secp(), &msg, &excess, Some(&pubkey)).map_err(|e| format!("{:?}", e))?;
+	let mut parts = vec![];
+	for (v, k, cb) in ins {
+		if *cb {
+			parts.push(build::coinbase_input(*v, k.clone()));
+		} else {
+			parts.push(build::input(*v, k.clone()));
+		}
+	}
+	for (v, k) in outs {
+		parts.push(build::output(*v, k.clone()));
+	}
+	build::transaction_with_kernel(&parts, kernel, excess, kc, &ProofBuilder::new(kc)).map_err(|e| format!("{:?}", e))
 }
 
 pub fn corrupt_output_swap_proofs(b: &mut Block) -> bool {
